@@ -87,6 +87,32 @@ Example C07_ex_duplicate :
   = [RInt 1; RInt 2].
 Proof. exact duplicated_entry_applied_twice. Qed.
 
+(* A late result never answers a later command.  A connection gave up on proposal [i] (time-out; its
+   registration is gone) and waits for its next proposal [i'], its only registration: the result of
+   [i], whenever its entry is applied, is delivered to nobody, and everything ever delivered to the
+   connection is the result of [i'].  This follows from delivery by lookup under the entry's id
+   (foreign_reply) and is C14_reply_routed_by_origin seen from a waiter that re-registers; it is
+   stated separately because it names the implementation facts it needs -- the registration is removed
+   before the connection does anything else, and a result channel belongs to ONE proposal -- which
+   checks/c07.py pins (late_tie: commit released around the time-out, slow-reading client, follow-up
+   commands).  C07_ex_stale_registration: what a registration that outlives the give-up does. *)
+Theorem C07_late_result_never_answers_later_command :
+  forall (step : db -> env -> list bytes -> reply * db) cb cs d envs j i i' args e c,
+    ~ In i (map fst cb) -> (forall id, In (id, c) cb -> id = i') ->
+    List.length envs = List.length cs ->
+    nth_error cs j = Some (i, args) -> nth_error envs j = Some e ->
+    (exists r, nth_error (fst (apply_cmds step cb d envs cs)) j = Some (mkDel None i r)) /\
+    (forall k dl, nth_error (fst (apply_cmds step cb d envs cs)) k = Some dl -> dconn dl = Some c -> did dl = i').
+Proof. exact late_result_never_answers_later_command. Qed.
+Print Assumptions C07_late_result_never_answers_later_command.
+
+Example C07_ex_stale_registration :
+  let cs := [(B "i", [B "RPUSH"; B "l"; B "late"]); (B "i2", [B "STRLEN"; B "s"])] in
+  let cb := [(B "i", 7%Z); (B "i2", 7%Z)] in
+  map (fun dl => (dconn dl, did dl, dreply dl)) (fst (apply_cmds exec_step cb empty_db [(0, 0, RNil); (0, 0, RNil)]%Z cs))
+  = [(Some 7%Z, B "i", RInt 1); (Some 7%Z, B "i2", RInt 0)].
+Proof. exact stale_registration_answers_next_command. Qed.
+
 (* Log order is a linearization: replies are those of executing the commands in log order
    (C07_own_reply), and log order respects real time -- if a's reply was received before b was
    sent, a is before b in the log -- because the reply follows the apply, the apply follows the
